@@ -89,16 +89,19 @@ def check_sites(ctx, rule):
     for fi, call, hits, prov in sites:
         n += 1
         construct = src(call)[:100]
-        key = (fi.qualname, construct)
+        # a private helper that only one method calls does that method's
+        # work: the site is reported (and keyed) under that method
+        where = m.owner(fi).qualname
+        key = (where, construct)
         callee = hits[0].fn.qualname
         if key in SITE_REASONS:
-            run.ok(rule, fi.qualname, construct,
+            run.ok(rule, where, construct,
                    "reasoned: " + SITE_REASONS[key], loc=m.loc(fi, call))
             continue
         bad = sorted(p for p in prov if p not in ("fresh",
                                                   "under-construction"))
         if not bad and prov:
-            run.ok(rule, fi.qualname, construct,
+            run.ok(rule, where, construct,
                    "receiver of %s is %s" % (callee.split(".")[-1],
                                              "/".join(sorted(prov))),
                    loc=m.loc(fi, call))
@@ -108,7 +111,7 @@ def check_sites(ctx, rule):
             # (except the derived schema of importSchemaComponent): a mutator
             # call on anything but a fresh object writes the schema in use
             chain = P.chain(fi.qualname)
-            run.fail(rule, fi.qualname, construct,
+            run.fail(rule, where, construct,
                      "%s mutates a schema object that is not private to the "
                      "load (receiver provenance: %s; a derived schema shares "
                      "its type table's elements with the application "
@@ -124,7 +127,7 @@ def check_sites(ctx, rule):
             # type table, a children list): an object that existed before and
             # that other types or the application schema may hold as well
             chain = P.chain(fi.qualname)
-            run.fail(rule, fi.qualname, construct,
+            run.fail(rule, where, construct,
                      "%s can be applied to an object taken out of an "
                      "existing container without being copied first "
                      "(receiver provenance: %s): the container's other "
@@ -142,7 +145,7 @@ def check_sites(ctx, rule):
             # attribute of an already existing object: something remembered
             # from an earlier load, not private to this one
             chain = P.chain(fi.qualname)
-            run.fail(rule, fi.qualname, construct,
+            run.fail(rule, where, construct,
                      "%s can be applied to a schema object kept in an "
                      "attribute across loads (receiver provenance: %s): what "
                      "one load adds is seen by the next; reachable while a "
